@@ -867,6 +867,9 @@ impl State {
                     )
                 };
                 let parent = ProguardMapping::new(self.mapping);
+                if format!("{:?}", parent) != "ProguardMapping" || format!("{:?}", parent.iter()) != "ProguardRecordIter" {
+                    return "DEBUG-MISMATCH".into();
+                }
                 let warm = render(&parent);
                 let cl = parent.clone();
                 let s1 = render(&parent.section(a..b));
